@@ -245,6 +245,13 @@ impl Runtime {
                 e.run_hooks(&ctx)
                     .unwrap_or_else(|err| error!("scher.initialize hooks={}", err));
 
+                if e.state() != state {
+                    // a catch hook revived the task: keep the stored task in step with it
+                    cache
+                        .upsert(e)
+                        .unwrap_or_else(|err| error!("scher.initialize upsert={}", err));
+                }
+
                 // a hook (a catch without steps) can finish the task and report the new state itself
                 if e.state().is_completed() && e.state() != state {
                     return;
